@@ -67,6 +67,53 @@ def gen_desc(rng):
     return desc
 
 
+def exec_rates(res, desc, case):
+    """channel C: the rendered EvalRates (CVODE and Odeint) compiled as it stands and called on a zeroed array at temperatures at,
+    next to and far from every bound: k[i] is non-zero exactly when Tmin <= T < Tmax (every reaction gets a coefficient that
+    is positive at every positive temperature).  Independent of how the guards are written."""
+    d2 = dict(desc, beta=0.0, gamma=0.0, alpha={i: 0.25 * (i % 7 + 1) for i in range(len(desc["reactions"]))})
+    d2.pop("rate_modifier", None)
+    net = ol.build_network(d2)
+    info, _ = ol.impl_ode(net)
+    win = [(Fraction(r.temp_min), Fraction(r.temp_max)) for r in info.reactions]
+    temps = sorted({float(T) for T in probes([b for w in win for b in w if b > 0])} - {0.0})
+    preps = []
+    for solver, srcs, inc, flag in [("cvode", ["naunet_rates.cpp"], "sundials", []), ("odeint", ["naunet_ode.cpp"], "boost", ["-DRATES_ODEINT"])]:
+        net = ol.build_network(d2)
+        tm = ["include/naunet_macros.h.j2", "include/naunet_data.h.j2", "include/naunet_ode.h.j2", "include/naunet_physics.h.j2",
+              "include/naunet_constants.h.j2", "include/naunet_utilities.h.j2"] + [f"src/{f}.j2" for f in srcs]
+        d = ol.render(net, solver, "dense" if solver == "cvode" else "rosenbrock4", "cpu", templates=tm)
+        exe = d / "rates"
+        preps.append((["g++", "-std=c++17", "-O0", "-w", "-Wl,--unresolved-symbols=ignore-all", *flag, "-I", str(CXX / inc), "-I", str(d / "include"),
+                       "-o", str(exe), *[str(d / "src" / f) for f in srcs], str(CXX / "rates_driver.cpp")], exe, solver))
+    diags = ol.compile_all([c for c, _, _ in preps])
+    for (cmd, exe, solver), diag in zip(preps, diags):
+        where = f"channel C ({solver} EvalRates, compiled)"
+        if diag is not None:
+            res.corr_disagreements += 1
+            res.violation("correspondence", f"{where}: {diag}", case)
+            continue
+        r = subprocess.run([str(exe)], input="\n".join(repr(t) for t in temps) + "\n", stdout=subprocess.PIPE, text=True, timeout=120)
+        rows = [[float(x) for x in l.split()] for l in r.stdout.splitlines()]
+        if r.returncode != 0 or len(rows) != len(temps) or any(len(row) != len(win) for row in rows):
+            res.corr_disagreements += 1
+            res.violation("correspondence", f"{where}: the driver printed {len(rows)} rows for {len(temps)} temperatures", case)
+            continue
+        res.count(f"rates executed:{solver}")
+        bad = None
+        for T, row in zip(temps, rows):
+            for i, (lo, hi) in enumerate(win):
+                want = prop_active(lo, hi, Fraction(T))
+                if (row[i] != 0.0) != want:
+                    bad = f"{where}: reaction {i} with window [{float(lo)}, {float(hi)}) gets k = {row[i]!r} at T = {T!r}: it should be {'active' if want else 'inactive (0)'}"
+                    break
+            if bad:
+                break
+        if bad:
+            res.violation("oracle", bad, dict(case, T=T))
+    ol.cleanup_scratch()
+
+
 def check_desc(res, model, desc, tag, channel_b=False):
     case = {"kind": "c06", "desc": desc}
     net = ol.build_network(desc)
@@ -76,7 +123,11 @@ def check_desc(res, model, desc, tag, channel_b=False):
         try:
             g, sym, ix, expr = rl.parse_assign(st)
         except ValueError as e:
-            res.violation("oracle", f"assignment {pos}: {e}", case)
+            # the reader knows `if (Tgas>=a && Tgas<b) { k[i] = ...; }` and nested ifs; anything else it does not understand
+            # (the compiled routine of channel C decides what the statement does)
+            res.corr_disagreements += 1
+            res.violation("correspondence", f"assignment {pos}: {e}", case)
+            exec_rates(res, desc, case)
             return
         guards.append(g)
         tmin, tmax = Fraction(r.temp_min), Fraction(r.temp_max)
@@ -119,7 +170,13 @@ def check_desc(res, model, desc, tag, channel_b=False):
                 where = f"channel B ({solver}/{method} {f})"
                 if "rates" in f or "ode.cpp" in f:
                     sts = rl.rates_statements(src)
-                    if len(sts) != len(ode.rateeqns) or any(rl.parse_assign(a)[0] != g for a, g in zip(sts, guards)):
+                    try:
+                        differ = len(sts) != len(ode.rateeqns) or any(rl.parse_assign(a)[0] != g for a, g in zip(sts, guards))
+                    except ValueError as e:
+                        res.corr_disagreements += 1
+                        res.violation("correspondence", f"{where}: {e}", case)
+                        differ = False
+                    if differ:
                         res.violation("oracle", f"{where}: rendered EvalRates guards differ from the generator's", case)
                 if "rates" in f:
                     continue
@@ -128,16 +185,22 @@ def check_desc(res, model, desc, tag, channel_b=False):
                     if src[max(0, m.start() - 4):m.start()].strip().startswith("int"):
                         continue      # the definition itself
                     before = src[:m.start()]
-                    decl = list(re.finditer(r"(?:realtype|double) k\[NREACTIONS\]\s*=\s*\{0\.0\};", before))
+                    decl = list(re.finditer(r"(?:realtype|double) k\[NREACTIONS\]\s*=\s*\{\s*(?:0(?:\.0*)?)?\s*\};", before))
                     fn_start = max(before.rfind("\nint "), before.rfind("\nvoid "), before.rfind("__global__ void"))
                     if not decl or decl[-1].start() < fn_start:
-                        res.violation("oracle", f"{where}: k[] is not zero-initialised before EvalRates is called: a reaction outside its window keeps an indeterminate coefficient", case)
+                        bare = re.search(r"(?:static\s+)?(?:realtype|double) k\[NREACTIONS\]\s*;|static\s+(?:realtype|double) k\[NREACTIONS\]", src[max(fn_start, 0):m.start()])
+                        if bare:
+                            res.violation("oracle", f"{where}: k[] is not zero-initialised before EvalRates is called ({bare.group(0)!r}): a reaction outside its window keeps an indeterminate or stale coefficient", case)
+                        else:
+                            res.corr_disagreements += 1
+                            res.violation("correspondence", f"{where}: the reader does not find how k[] is declared before EvalRates is called", case)
                         break
                     use = re.search(r"\bk\[\d+\]", src[fn_start:m.start()])
                     if use:
                         res.violation("oracle", f"{where}: k[] used before EvalRates", case)
                         break
         ol.cleanup_scratch()
+        exec_rates(res, desc, case)
     res.case(("c06", tag, repr(desc)), sample={"windows": [(desc["tmin"][i], desc["tmax"][i]) for i in range(min(5, len(desc["reactions"])))],
                                              "rateeqns[0]": ode.rateeqns[0][:90]},
              nontrivial=any(g[0] != "none" for g in guards))
